@@ -22,13 +22,13 @@ func CompileToGetCodeSet(ctx *RuntimeContext, typeptr uintptr) (*OpcodeSet, erro
 	index := (typeptr - typeAddr.BaseTypeAddr) >> typeAddr.AddrShift
 	setsMu.RLock()
 	if codeSet := cachedOpcodeSets[index]; codeSet != nil {
+		// release before filtering: building a filtered code set may re-enter this function
+		setsMu.RUnlock()
 		verifCodeSet(typeptr, codeSet, int(index))
 		filtered, err := getFilteredCodeSetIfNeeded(ctx, codeSet)
 		if err != nil {
-			setsMu.RUnlock()
 			return nil, err
 		}
-		setsMu.RUnlock()
 		return filtered, nil
 	}
 	setsMu.RUnlock()
